@@ -1,12 +1,749 @@
 /-
-  C17 — property theorems only (helper lemmas live in Lemmas.lean).
+  C17 — property theorems (helper lemmas live in Lemmas.lean).
+
+  Everything is stated for EVERY model state satisfying the invariant `StWF` (established for the
+  initial state and preserved by every step: `wf_init`, `wf_step`, hence for every history:
+  `wf_history`), every arrival face, every name, every decoded ControlParameters value, every
+  answer of the oracles (`Ext`: RIB→FIB flattening, C06; `routed`: forwarding plane, C02/C05).
+  `check` is the same executable predicate the driver evaluates on the implementation's outputs.
 -/
-import NdnVerif.C17.Model
-import NdnVerif.C17.Spec
+import NdnVerif.C17.Lemmas
 namespace Ndn.C17
 
-theorem run_short_name_dropped (st : St) (ext : Ext) (f : Nat) (n : Name) (p : Params) (h : n.length < 4) :
-    run st ext f n p = (st, .none) := by
-  simp [run, h]
+/-! ### the invariant holds along every history -/
+
+structure Input where
+  ext : Ext
+  routed : Bool
+  face : Nat
+  name : Name
+  params : Params
+
+def stepIn (st : St) (i : Input) : St := (sysStep st i.ext i.routed i.face i.name i.params).1
+
+/-- the state after any history of arrivals -/
+def runHistory (st : St) (h : List Input) : St := h.foldl stepIn st
+
+theorem wf_init (lh : Bool) : StWF (init lh) := by
+  refine ⟨?_, by simp [init], by simp [init, maxInt]⟩
+  intro f hf _
+  simp [init, initFaces, mkHook] at hf
+  rcases hf with rfl | rfl | rfl | rfl | rfl | rfl <;> rfl
+
+/-- `usable` (every chosen strategy is instantiated, every face MTU carries a packet, capacity ≥ 0)
+    holds initially -/
+theorem usable_init (lh : Bool) : usable (tablesOf (init lh)) = true := by
+  simp [usable, tablesOf, init, initFaces, mkHook, instantiated, specMaxOverhead]
+
+theorem faceAfter_scheme (f : Face) (a : Args) :
+    schemeUpdatable (faceAfter f a) = schemeUpdatable f ∧ (faceAfter f a).ndnlp = f.ndnlp := by
+  have h : (faceAfter f a).rscheme = f.rscheme := by
+    unfold faceAfter
+    cases a.pers <;> cases a.bcmi <;> cases a.dct <;> cases a.mtu <;> cases a.flags <;> cases a.mask <;>
+      simp [applyFlags] <;> (repeat' split) <;> rfl
+  exact ⟨by simp [schemeUpdatable, h], (faceAfter_keep f a).2⟩
+
+/-- one step preserves the invariant -/
+theorem wf_step (st : St) (ext : Ext) (routed : Bool) (face : Nat) (name : Name) (p : Params) (h : StWF st) :
+    StWF (sysStep st ext routed face name p).1 := by
+  obtain ⟨hwf, h0, h1⟩ := h
+  rcases sysStep_char st ext routed face name p hwf with ⟨hs, _⟩ | ⟨_, _, hs, hv⟩
+  · rw [hs]; exact ⟨hwf, h0, h1⟩
+  · rw [hs, post_fst]
+    cases hvo : verbOf name with
+    | none =>
+      simp only [hvo] at hv
+      have htb := hv.1
+      simp only [tbl, Prod.mk.injEq] at htb
+      obtain ⟨_, _, _, hcs, hfa⟩ := htb
+      exact ⟨by rw [hfa]; exact hwf, by rw [hcs]; exact h0, by rw [hcs]; exact h1⟩
+    | some v =>
+      simp only [hvo] at hv
+      split at hv
+      · rcases char_cases hv with ⟨hval, a, hp, _, hag⟩ | ⟨_, hst, _⟩
+        · obtain ⟨_, _, _, _, _, _, _, _, hcs, hfa, _, _⟩ := hag
+          rw [StWF, hcs, hfa]
+          cases v <;> simp only [effect, tablesOf]
+          case ribRegister => exact ⟨hwf, h0, h1⟩
+          case ribUnregister => exact ⟨hwf, h0, h1⟩
+          case fibAdd => exact ⟨hwf, h0, h1⟩
+          case fibRemove => exact ⟨hwf, h0, h1⟩
+          case scSet => exact ⟨hwf, h0, h1⟩
+          case scUnset => exact ⟨hwf, h0, h1⟩
+          case csConfig =>
+            cases hk : a.capacity with
+            | none => exact ⟨hwf, h0, h1⟩
+            | some k =>
+              have hk' : k ≤ maxInt := by
+                rw [hp] at hval
+                simp only [validity, hk] at hval
+                by_cases hle : k ≤ maxInt
+                · exact hle
+                · exfalso
+                  cases hasParams name <;> simp [hle] at hval
+              refine ⟨hwf, by simp, ?_⟩
+              simp only []
+              exact_mod_cast hk'
+          case faceUpdate =>
+            cases hg : faceGet st.faces (targetFace a face) with
+            | none => exact ⟨hwf, h0, h1⟩
+            | some fc =>
+              refine ⟨?_, h0, h1⟩
+              intro g hgm hgs
+              rcases mem_faceSet hgm with hm | rfl
+              · exact hwf g hm hgs
+              · rw [← faceAfter_eq] at hgs ⊢
+                rw [(faceAfter_scheme fc a).1] at hgs
+                rw [(faceAfter_scheme fc a).2]
+                exact hwf fc (faceGet_some hg).1 hgs
+          case faceDestroy => exact ⟨fun g hg hs => hwf g (mem_faceRemove hg) hs, h0, h1⟩
+        · rw [hst]; exact ⟨hwf, h0, h1⟩
+      · rw [hv]; exact ⟨hwf, h0, h1⟩
+
+theorem wf_history (lh : Bool) (h : List Input) : StWF (runHistory (init lh) h) := by
+  unfold runHistory
+  suffices ∀ st, StWF st → StWF (h.foldl stepIn st) from this _ (wf_init lh)
+  induction h with
+  | nil => intro st hst; exact hst
+  | cons i t ih => intro st hst; exact ih _ (wf_step st i.ext i.routed i.face i.name i.params hst)
+
+/-! ### no panic for any parameters -/
+
+/-- `handle_total`: for every state (invariant), arrival face, name and parameters — decodable or
+    not, any field present or absent, any values — the management plane answers or stays silent;
+    no Go panic outcome of the model is reachable. -/
+theorem handle_total (st : St) (ext : Ext) (routed : Bool) (face : Nat) (name : Name) (p : Params)
+    (hwf : StWF st) : ∀ m, (sysStep st ext routed face name p).2 ≠ .panic m := by
+  intro m hm
+  have hs := obs_shape st ext routed face name p hwf.1
+  have hout : (obsOf st ext routed face name p).out = .crash := by simp [obsOf, hm, outcomeOf]
+  cases hs with
+  | quiet h1 => rw [h1] at hout; cases hout
+  | refused c e h1 => rw [h1] at hout; cases hout
+  | listed pf mv v d h1 => rw [h1] at hout; cases hout
+  | accepted v a _ _ _ _ _ _ _ ho => rcases ho with ho | ⟨ho, _⟩ <;> (rw [ho] at hout; cases hout)
+
+example : (sysStep (init false) ⟨[], []⟩ true 2 (lhPrefix ++ [gc "strategy-choice", gc "set", ⟨8, []⟩])
+    (.args { name := some [], strategy := some strategyPrefix })).2 = .ctrl 404 noArgs := by rfl
+
+/-! ### authorisation -/
+
+/-- `state_changes_only_if_authorised`: if any table (RIB, FIB, strategy choices, CS capacity, face
+    table) differs after a step, the Interest arrived under /localhost/nfd on a local face, or
+    under /localhop/nfd for the RIB module with localhop management enabled — and was delivered. -/
+theorem state_changes_only_if_authorised (st : St) (ext : Ext) (routed : Bool) (face : Nat) (name : Name)
+    (p : Params) (hwf : StWF st)
+    (hch : tablesOf (sysStep st ext routed face name p).1 ≠ tablesOf st) :
+    authorised st.lh st.faces face name = true ∧ routed = true := by
+  have hs := obs_shape st ext routed face name p hwf.1
+  have hne : (obsOf st ext routed face name p).after ≠ (obsOf st ext routed face name p).before := by
+    simpa [obsOf] using hch
+  cases hs with
+  | quiet _ h2 => exact absurd h2 hne
+  | refused _ _ _ _ h2 => exact absurd h2 hne
+  | listed _ _ _ _ _ h2 => exact absurd h2 hne
+  | accepted v a _ _ _ ha hr => exact ⟨by simpa [obsOf, Obs.auth, tablesOf] using ha, by simpa [obsOf] using hr⟩
+
+/-- with localhop management off, nothing arriving under /localhop/nfd changes anything (F-17d) -/
+theorem localhop_disabled_no_change (st : St) (ext : Ext) (routed : Bool) (face : Nat) (name : Name)
+    (p : Params) (hwf : StWF st) (hlh : st.lh = false) (hn : lhPrefix.isPrefixOf name = false) :
+    tablesOf (sysStep st ext routed face name p).1 = tablesOf st := by
+  apply Classical.byContradiction
+  intro hch
+  have := (state_changes_only_if_authorised st ext routed face name p hwf hch).1
+  simp [authorised, hlh, hn] at this
+
+/-- a non-local face never changes state through /localhost/nfd -/
+theorem nonlocal_localhost_no_change (st : St) (ext : Ext) (routed : Bool) (face : Nat) (name : Name)
+    (p : Params) (hwf : StWF st) (hf : faceIsLocal st.faces face = false) (hn : lpPrefix.isPrefixOf name = false) :
+    tablesOf (sysStep st ext routed face name p).1 = tablesOf st := by
+  apply Classical.byContradiction
+  intro hch
+  have := (state_changes_only_if_authorised st ext routed face name p hwf hch).1
+  simp [authorised, hf, hn] at this
+
+example : authorised true initFaces 4 (lpPrefix ++ [gc "rib", gc "register"]) = true ∧
+    authorised false initFaces 4 (lpPrefix ++ [gc "rib", gc "register"]) = false ∧
+    authorised true initFaces 4 (lhPrefix ++ [gc "rib", gc "register"]) = false := by decide
+
+/-! ### the model satisfies every clause of the executable specification -/
+
+theorem same_of_eq {a b : Tables} (h : a = b) : b.same a = true := by rw [h]; exact same_refl _
+
+/-- `model_satisfies_spec`: the predicate the driver evaluates on the implementation's outputs
+    (`check`: live, authorised, effect, nochange, dataset, accepted/refused, usable) finds nothing
+    to object to in ANY step of the model. -/
+theorem model_satisfies_spec (st : St) (ext : Ext) (routed : Bool) (face : Nat) (name : Name) (p : Params)
+    (hwf : StWF st) : check (obsOf st ext routed face name p) = [] := by
+  have hs := obs_shape st ext routed face name p hwf.1
+  generalize hob : obsOf st ext routed face name p = o at hs
+  have hbefore : o.before = tablesOf st := by rw [← hob]; rfl
+  have hlive : cLive o = true := by
+    cases hs with
+    | quiet h1 => simp [cLive, h1]
+    | refused c e h1 => simp [cLive, h1]
+    | listed pf mv v d h1 => simp [cLive, h1]
+    | accepted v a _ _ _ _ _ _ _ ho => rcases ho with ho | ⟨ho, _⟩ <;> simp [cLive, ho]
+  have hauth : cAuth o = true := by
+    cases hs with
+    | quiet _ h2 => simp [cAuth, Obs.changed, same_of_eq h2]
+    | refused _ _ _ _ h2 => simp [cAuth, Obs.changed, same_of_eq h2]
+    | listed _ _ _ _ _ h2 => simp [cAuth, Obs.changed, same_of_eq h2]
+    | accepted v a _ _ _ ha hr => simp [cAuth, ha, hr]
+  have heff : cEffect o = true := by
+    cases hs with
+    | quiet h1 => simp [cEffect, h1]
+    | refused c e h1 hc =>
+      unfold cEffect; rw [h1]; split
+      · rename_i heq; simp at heq; exact absurd heq.1 hc
+      · rfl
+    | listed pf mv v d h1 => simp [cEffect, h1]
+    | accepted v a hv hp _ _ _ hm _ ho =>
+      rcases ho with ho | ⟨ho, _⟩
+      · simp [cEffect, ho, hv, hp, hm]
+      · simp [cEffect, ho]
+  have hnc : cNoChange o = true := by
+    cases hs with
+    | quiet h1 h2 => simp [cNoChange, h1, Obs.changed, same_of_eq h2]
+    | refused c e h1 hc h2 =>
+      unfold cNoChange; rw [h1]; split
+      · rfl
+      · simp [Obs.changed, same_of_eq h2]
+      all_goals simp_all
+    | listed pf mv v d h1 h2 => simp [cNoChange, h1, Obs.changed, same_of_eq h2]
+    | accepted v a _ _ _ _ _ _ _ ho =>
+      rcases ho with ho | ⟨ho, hg⟩
+      · simp [cNoChange, ho]
+      · simp [cNoChange, ho, hg]
+  have hds : cDataset o = true := by
+    cases hs with
+    | quiet h1 => simp [cDataset, h1]
+    | refused c e h1 => simp [cDataset, h1]
+    | listed pf mv v d h1 h2 hd =>
+      simp only [cDataset, h1, h2, hbefore]
+      rcases hd with rfl | rfl | rfl | rfl | rfl | rfl <;>
+        simp [datasetOk, tablesOf, sameRib, sameFib, sameSc, sameFaces]
+      exact toU64_of_nonneg hwf.2.1 hwf.2.2
+    | accepted v a _ _ _ _ _ _ _ ho => rcases ho with ho | ⟨ho, _⟩ <;> simp [cDataset, ho]
+  have hval : cValidity o = true := by
+    unfold cValidity
+    cases hvo : verbOf o.name with
+    | none => rfl
+    | some v =>
+      simp only []
+      by_cases har : (o.auth && o.routed) = true
+      · simp only [har, ↓reduceIte]
+        simp only [Bool.and_eq_true] at har
+        cases hs with
+        | quiet _ _ hnv => exact (hnv v hvo har.1 har.2).elim
+        | listed _ _ _ _ _ _ _ hnv => exact (hnv v hvo har.1 har.2).elim
+        | refused c e h1 hc _ hnv =>
+          obtain ⟨hnvd, hc1, hc2⟩ := hnv v hvo har.1 har.2
+          rw [h1]
+          cases hvd : validity o.before o.face v o.hasP o.params
+          · exact absurd hvd hnvd
+          · simp [hc1, hc2]
+          · rfl
+        | accepted v' a hv' _ hvd _ _ _ _ ho =>
+          have : v' = v := by rw [hvo] at hv'; cases hv'; rfl
+          subst this
+          rw [hvd]
+          rcases ho with ho | ⟨ho, hg⟩
+          · simp [ho]
+          · simp [ho, hg]
+      · simp [har]
+  have hus : cUsable o = true := by
+    unfold cUsable
+    cases hs with
+    | quiet _ h2 => rw [h2]; cases usable o.before <;> rfl
+    | refused _ _ _ _ h2 => rw [h2]; cases usable o.before <;> rfl
+    | listed _ _ _ _ _ h2 => rw [h2]; cases usable o.before <;> rfl
+    | accepted _ _ _ _ _ _ _ _ hu _ =>
+      cases hb : usable o.before
+      · rfl
+      · simp [hu hb]
+  simp [check, hlive, hauth, heff, hnc, hds, hval, hus]
+
+/-- … hence in every step of every history from the initial state -/
+theorem model_satisfies_spec_history (lh : Bool) (h : List Input) (i : Input) :
+    check (obsOf (runHistory (init lh) h) i.ext i.routed i.face i.name i.params) = [] :=
+  model_satisfies_spec _ _ _ _ _ _ (wf_history lh h)
+
+/-! ### accepted commands: exact effect, documented defaults, status 200 -/
+
+/-- `accepted_effect_exact`: whenever the requester sees status 200 for a command of one of the nine
+    state-changing verbs, the parameters were decodable and valid, the echoed parameters are the
+    ones the specification prescribes, and strategy choices, CS capacity and face table — plus the
+    FIB for FIB commands and the RIB for RIB commands — are exactly `effect` of the old tables
+    (the FIB after a RIB command / RIB+FIB after a face destruction are C06's). -/
+theorem accepted_effect_exact (st : St) (ext : Ext) (routed : Bool) (face : Nat) (name : Name) (p : Params)
+    (hwf : StWF st) (v : Verb) (hv : verbOf name = some v) (echo : Args)
+    (h200 : (sysStep st ext routed face name p).2 = .ctrl 200 echo) :
+    ∃ a, p = .args a ∧ validity (tablesOf st) face v (hasParams name) p = .valid ∧
+      echo = (effect (tablesOf st) face v a).echo ∧
+      (effect (tablesOf st) face v a).matches (tablesOf (sysStep st ext routed face name p).1) = true := by
+  have hs := obs_shape st ext routed face name p hwf.1
+  have hout : (obsOf st ext routed face name p).out = .ctrl 200 echo := by simp [obsOf, h200, outcomeOf]
+  cases hs with
+  | quiet h1 => rw [h1] at hout; cases hout
+  | refused c e h1 hc => rw [h1] at hout; cases hout; exact absurd rfl hc
+  | listed pf mv ver d h1 => rw [h1] at hout; cases hout
+  | accepted v' a hv' hp hval _ _ hm _ ho =>
+    have : v' = v := by simp only [obsOf] at hv'; rw [hv] at hv'; cases hv'; rfl
+    subst this
+    rcases ho with ho | ⟨ho, _⟩
+    · rw [ho] at hout; cases hout
+      exact ⟨a, by simpa [obsOf] using hp, by simpa [obsOf, Obs.hasP] using hval, rfl, by simpa [obsOf] using hm⟩
+    · rw [ho] at hout; cases hout
+
+/-- the documented defaults of rib/register: requesting face, origin 0 (app), cost 0,
+    flags 1 (child-inherit) -/
+theorem rib_register_defaults (t : Tables) (inFace : Nat) (n : Name) :
+    (effect t inFace .ribRegister { name := some n }).echo =
+      { name := some n, faceId := some inFace, origin := some 0, cost := some 0, flags := some 1 } ∧
+    (effect t inFace .ribRegister { name := some n }).t.rib = ribAdd t.rib n ⟨inFace, 0, 0, 1, none⟩ := by
+  simp [effect, targetFace]
+
+/-- fib/add-nexthop defaults: requesting face, cost 0; FaceId 0 also means the requesting face -/
+theorem fib_add_defaults (t : Tables) (inFace : Nat) (n : Name) :
+    (effect t inFace .fibAdd { name := some n }).t.fib = fibInsert t.fib n inFace 0 ∧
+    (effect t inFace .fibAdd { name := some n, faceId := some 0 }).t.fib = fibInsert t.fib n inFace 0 := by
+  simp [effect, targetFace]
+
+/-- `accepted_reports_200`: a delivered, authorised command of a known verb whose parameters are
+    valid is answered 200 (unless it destroyed the requester's own face) -/
+theorem accepted_reports_200 (st : St) (ext : Ext) (face : Nat) (name : Name) (p : Params)
+    (hwf : StWF st) (v : Verb) (hv : verbOf name = some v)
+    (hauth : authorised st.lh st.faces face name = true)
+    (hval : validity (tablesOf st) face v (hasParams name) p = .valid) :
+    (∃ echo, (sysStep st ext true face name p).2 = .ctrl 200 echo) ∨
+    ((sysStep st ext true face name p).2 = .none ∧
+      (faceGet (sysStep st ext true face name p).1.faces face).isNone = true) := by
+  have h := model_satisfies_spec st ext true face name p hwf
+  have hs := obs_shape st ext true face name p hwf.1
+  cases hs with
+  | quiet _ _ hnv => exact (hnv v (by simpa [obsOf] using hv) (by simpa [obsOf, Obs.auth, tablesOf] using hauth) rfl).elim
+  | listed _ _ _ _ _ _ _ hnv => exact (hnv v (by simpa [obsOf] using hv) (by simpa [obsOf, Obs.auth, tablesOf] using hauth) rfl).elim
+  | refused c e _ _ _ hnv =>
+    have := (hnv v (by simpa [obsOf] using hv) (by simpa [obsOf, Obs.auth, tablesOf] using hauth) rfl).1
+    exact absurd (by simpa [obsOf, Obs.hasP] using hval) this
+  | accepted v' a _ _ _ _ _ _ _ ho =>
+    rcases ho with ho | ⟨ho, hg⟩
+    · left
+      simp only [obsOf] at ho
+      cases h2 : (sysStep st ext true face name p).2 <;> simp [h2, outcomeOf] at ho
+      exact ⟨_, by rw [ho.1, ho.2]⟩
+    · right
+      simp only [obsOf] at ho
+      cases h2 : (sysStep st ext true face name p).2 <;> simp [h2, outcomeOf] at ho
+      exact ⟨rfl, by simpa [obsOf, Obs.requesterGone, tablesOf] using hg⟩
+
+/-! ### bad parameters: 4xx, nothing changes -/
+
+/-- `bad_params_4xx_no_change`: a delivered, authorised command of a known verb whose parameters are
+    missing, undecodable or out of range (no Name, non-existent face, unknown / malformed strategy
+    name, Flags without Mask, capacity ≥ 2^63, MTU that cannot carry a packet, unknown face,
+    unacceptable persistency, no FaceId for destroy) is answered with a 4xx status and every
+    table is exactly as before. -/
+theorem bad_params_4xx_no_change (st : St) (ext : Ext) (face : Nat) (name : Name) (p : Params)
+    (hwf : StWF st) (v : Verb) (hv : verbOf name = some v)
+    (hauth : authorised st.lh st.faces face name = true)
+    (hbad : validity (tablesOf st) face v (hasParams name) p ≠ .valid) :
+    (∃ c e, (sysStep st ext true face name p).2 = .ctrl c e ∧ 400 ≤ c ∧ c < 500) ∧
+    tablesOf (sysStep st ext true face name p).1 = tablesOf st := by
+  have hs := obs_shape st ext true face name p hwf.1
+  cases hs with
+  | quiet _ _ hnv => exact (hnv v (by simpa [obsOf] using hv) (by simpa [obsOf, Obs.auth, tablesOf] using hauth) rfl).elim
+  | listed _ _ _ _ _ _ _ hnv => exact (hnv v (by simpa [obsOf] using hv) (by simpa [obsOf, Obs.auth, tablesOf] using hauth) rfl).elim
+  | refused c e h1 _ h2 hnv =>
+    obtain ⟨_, hc1, hc2⟩ := hnv v (by simpa [obsOf] using hv) (by simpa [obsOf, Obs.auth, tablesOf] using hauth) rfl
+    refine ⟨⟨c, e, ?_, hc1, hc2⟩, by simpa [obsOf] using h2⟩
+    simp only [obsOf] at h1
+    cases h3 : (sysStep st ext true face name p).2 <;> simp [h3, outcomeOf] at h1
+    rw [h1.1, h1.2]
+  | accepted v' a hv' _ hval =>
+    have : v' = v := by simp only [obsOf] at hv'; rw [hv] at hv'; cases hv'; rfl
+    subst this
+    exact absurd (by simpa [obsOf, Obs.hasP] using hval) hbad
+
+/-- any answer other than 200 — and silence — leaves the tables alone -/
+theorem non200_no_change (st : St) (ext : Ext) (routed : Bool) (face : Nat) (name : Name) (p : Params)
+    (hwf : StWF st) (c : Nat) (e : Args) (hc : c ≠ 200)
+    (h : (sysStep st ext routed face name p).2 = .ctrl c e) :
+    tablesOf (sysStep st ext routed face name p).1 = tablesOf st := by
+  have hs := obs_shape st ext routed face name p hwf.1
+  have hout : (obsOf st ext routed face name p).out = .ctrl c e := by simp [obsOf, h, outcomeOf]
+  cases hs with
+  | quiet h1 => rw [h1] at hout; cases hout
+  | refused _ _ _ _ h2 => simpa [obsOf] using h2
+  | listed _ _ _ _ h1 => rw [h1] at hout; cases hout
+  | accepted _ _ _ _ _ _ _ _ _ ho =>
+    rcases ho with ho | ⟨ho, _⟩ <;> rw [ho] at hout <;> cases hout
+    exact absurd rfl hc
+
+/-- `strategy_unset_root_rejected`: strategy-choice/unset of the root prefix is refused with 400 and
+    the root keeps its strategy (so `FindStrategyEnc` always finds one: F-05b is unreachable through
+    management) -/
+theorem strategy_unset_root_rejected (st : St) (name : Name) (a : Args) (hn : a.name = some [])
+    (hp : hasParams name = true) :
+    scUnsetCmd st name (.args a) = (st, .ctrl 400 noArgs) := by
+  simp [scUnsetCmd, hp, hn, r400]
+
+theorem mem_scSet_root {sc : Sc} {n s : Name} (h : ∃ x, ([], x) ∈ sc) : ∃ x, ([], x) ∈ scSet sc n s := by
+  obtain ⟨x, hx⟩ := h
+  induction sc with
+  | nil => cases hx
+  | cons e t ih =>
+    obtain ⟨m, y⟩ := e
+    simp only [scSet]
+    split
+    · rename_i hmn
+      simp at hmn; subst hmn
+      rcases List.mem_cons.1 hx with h | h
+      · cases h; exact ⟨s, by simp⟩
+      · exact ⟨x, List.mem_cons_of_mem _ h⟩
+    · rcases List.mem_cons.1 hx with h | h
+      · cases h; exact ⟨x, by simp⟩
+      · obtain ⟨x', hx'⟩ := ih h
+        exact ⟨x', List.mem_cons_of_mem _ hx'⟩
+
+/-- the root prefix always has a strategy: no management command removes it -/
+theorem root_strategy_kept (st : St) (ext : Ext) (routed : Bool) (face : Nat) (name : Name) (p : Params)
+    (hwf : StWF st) (hroot : ∃ s, ([], s) ∈ st.sc) :
+    ∃ s, ([], s) ∈ (sysStep st ext routed face name p).1.sc := by
+  rcases sysStep_char st ext routed face name p hwf.1 with ⟨hs, _⟩ | ⟨_, _, hs, hv⟩
+  · rw [hs]; exact hroot
+  · rw [hs, post_fst]
+    cases hvo : verbOf name with
+    | none =>
+      simp only [hvo] at hv
+      have htb := hv.1
+      simp only [tbl, Prod.mk.injEq] at htb
+      rw [htb.2.2.1]; exact hroot
+    | some v =>
+      simp only [hvo] at hv
+      split at hv
+      · rcases char_cases hv with ⟨hval, a, hp, _, hag⟩ | ⟨_, hst, _⟩
+        · obtain ⟨_, _, _, _, _, _, _, hsc, _⟩ := hag
+          rw [hsc]
+          cases v <;> simp only [effect, tablesOf]
+          case scSet => exact mem_scSet_root hroot
+          case scUnset =>
+            obtain ⟨x, hx⟩ := hroot
+            refine ⟨x, ?_⟩
+            simp only [scUnset, List.mem_filter]
+            refine ⟨hx, ?_⟩
+            rw [hp] at hval
+            simp only [validity] at hval
+            cases hn : a.name with
+            | none => cases hasParams name <;> simp [hn] at hval
+            | some n =>
+              cases n with
+              | nil => cases hasParams name <;> simp [hn] at hval
+              | cons c t => simp
+          case csConfig => cases a.capacity <;> exact hroot
+          case faceUpdate => cases faceGet st.faces (targetFace a face) <;> exact hroot
+          all_goals exact hroot
+        · rw [hst]; exact hroot
+      · rw [hv]; exact hroot
+
+example : ∃ s, ([], s) ∈ (init true).sc := ⟨bestRouteV1, by simp [init]⟩
+
+/-! ### MTU: accepted ⇒ sendable -/
+
+/-- the arithmetic of `sendPacket` never fails when the MTU exceeds the largest overhead -/
+theorem sendOutcome_ok (mtu : Nat) (frag inFaceInd hasToken hasMark : Bool) (len : Nat)
+    (h : maxOverhead < mtu) : sendOutcome mtu frag inFaceInd hasToken hasMark len ≠ .panic := by
+  unfold sendOutcome
+  have ho : overhead frag inFaceInd hasToken hasMark ≤ maxOverhead := by
+    unfold maxOverhead overhead
+    cases frag <;> cases inFaceInd <;> cases hasToken <;> cases hasMark <;> simp
+  simp only []
+  split
+  · simp
+  · split
+    · simp
+    · split
+      · rename_i h3; exfalso; omega
+      · simp
+
+/-- with fragmentation on, a packet is always emitted as at least one frame -/
+theorem sendOutcome_frames (mtu : Nat) (inFaceInd hasToken hasMark : Bool) (len : Nat)
+    (h : maxOverhead < mtu) (hl : 0 < len) :
+    ∃ n, 0 < n ∧ sendOutcome mtu true inFaceInd hasToken hasMark len = .frames n := by
+  unfold sendOutcome
+  have ho : overhead true inFaceInd hasToken hasMark ≤ maxOverhead := by
+    unfold maxOverhead overhead
+    cases inFaceInd <;> cases hasToken <;> cases hasMark <;> simp
+  simp only []
+  split
+  · exact ⟨1, by omega, rfl⟩
+  · simp only [Bool.not_true, Bool.false_eq_true, ↓reduceIte]
+    split
+    · rename_i h3; exfalso; omega
+    · rename_i h2 h3
+      refine ⟨_, ?_, rfl⟩
+      have : 0 < ((mtu : Int) - (overhead true inFaceInd hasToken hasMark : Int)).toNat := by omega
+      exact Nat.div_pos (by omega) this
+
+/-- `mtu_accepted_implies_sendable`: an MTU that faces/update accepts (status 200) leaves the face
+    with an MTU on which `sendPacket` cannot divide by zero or allocate negatively, whatever the
+    packet size, PIT token, congestion mark and link-service options -/
+theorem mtu_accepted_implies_sendable (st : St) (inFace : Nat) (name : Name) (a : Args) (m : Nat)
+    (hm : a.mtu = some m) (st' : St) (echo : Args)
+    (h : faceUpdate st inFace name (.args a) = (st', .ctrl 200 echo)) :
+    minMtu ≤ m ∧ ∀ frag ifi tok mark len,
+      sendOutcome (if m > maxPacket then maxPacket else m) frag ifi tok mark len ≠ .panic := by
+  have hmin : minMtu ≤ m := by
+    unfold faceUpdate at h
+    by_cases hp : hasParams name = true
+    · simp only [hp, Bool.not_true, Bool.false_eq_true, ↓reduceIte] at h
+      cases hg : faceGet st.faces (pickFace a inFace) with
+      | none => simp [hg] at h
+      | some f =>
+        simp only [hg] at h
+        split at h
+        · simp at h
+        · split at h
+          · simp at h
+          · rename_i hok
+            simp only [Bool.not_eq_true', Bool.and_eq_false_iff, not_or, Bool.not_eq_false] at hok
+            have := hok.2
+            simpa [mtuOk, hm] using this
+    · simp [hp, r400] at h
+  refine ⟨hmin, ?_⟩
+  intro frag ifi tok mark len
+  apply sendOutcome_ok
+  unfold minMtu at hmin
+  unfold maxOverhead overhead maxPacket
+  simp
+  split <;> omega
+
+/-- … and the face table as a whole stays sendable along every history (`usable` includes
+    `∀ face, 56 < mtu`; `model_satisfies_spec` shows it is preserved, `usable_init` that it holds
+    initially) -/
+theorem usable_history (lh : Bool) (h : List Input) : usable (tablesOf (runHistory (init lh) h)) = true := by
+  unfold runHistory
+  suffices ∀ st, StWF st → usable (tablesOf st) = true → usable (tablesOf (h.foldl stepIn st)) = true from
+    this _ (wf_init lh) (usable_init lh)
+  induction h with
+  | nil => intro st _ hu; exact hu
+  | cons i t ih =>
+    intro st hst hu
+    apply ih _ (wf_step st i.ext i.routed i.face i.name i.params hst)
+    have := model_satisfies_spec st i.ext i.routed i.face i.name i.params hst
+    have hcu : cUsable (obsOf st i.ext i.routed i.face i.name i.params) = true := by
+      apply Classical.byContradiction
+      intro hn
+      simp [check, hn] at this
+    simp only [cUsable, obsOf, hu, Bool.not_true, Bool.false_or] at hcu
+    exact hcu
+
+/-- every strategy ever installed through management is one the forwarding threads instantiate
+    (F-17e) and every face can send (F-17b), after any history -/
+theorem history_strategies_instantiated_faces_sendable (lh : Bool) (h : List Input) :
+    (∀ e ∈ (runHistory (init lh) h).sc, instantiated e.2 = true) ∧
+    (∀ f ∈ (runHistory (init lh) h).faces, ∀ frag ifi tok mark len, sendOutcome f.mtu frag ifi tok mark len ≠ .panic) ∧
+    0 ≤ (runHistory (init lh) h).cs := by
+  have := (usable_iff _).1 (usable_history lh h)
+  refine ⟨this.1, ?_, this.2.2⟩
+  intro f hf frag ifi tok mark len
+  exact sendOutcome_ok _ _ _ _ _ _ (by have := this.2.1 f hf; simpa [specMaxOverhead, maxOverhead, overhead] using this)
+
+/-! ### datasets -/
+
+/-- `dataset_eq_tables`: every status dataset management emits lists exactly the current contents
+    of the table it reports on (RIB routes, FIB next hops, strategy choices, CS capacity and flags,
+    face table; forwarder status: the number of FIB entries) and leaves the tables unchanged -/
+theorem dataset_eq_tables (st : St) (ext : Ext) (routed : Bool) (face : Nat) (name : Name) (p : Params)
+    (hwf : StWF st) (pf : Name) (mv : String) (ver : Nat) (d : Dataset)
+    (h : (sysStep st ext routed face name p).2 = .dataset pf mv ver d) :
+    DatasetOf st d ∧ tablesOf (sysStep st ext routed face name p).1 = tablesOf st ∧
+    datasetOk d (tablesOf (sysStep st ext routed face name p).1) = true := by
+  have hs := obs_shape st ext routed face name p hwf.1
+  have hout : (obsOf st ext routed face name p).out = .dataset pf mv ver d := by simp [obsOf, h, outcomeOf]
+  have hcheck := model_satisfies_spec st ext routed face name p hwf
+  have hds : cDataset (obsOf st ext routed face name p) = true := by
+    apply Classical.byContradiction
+    intro hn
+    simp [check, hn] at hcheck
+  cases hs with
+  | quiet h1 => rw [h1] at hout; cases hout
+  | refused _ _ h1 => rw [h1] at hout; cases hout
+  | listed pf' mv' v' d' h1 h2 hd =>
+    rw [h1] at hout; cases hout
+    refine ⟨hd, by simpa [obsOf] using h2, ?_⟩
+    unfold cDataset at hds; rw [h1] at hds; simpa [obsOf] using hds
+  | accepted _ _ _ _ _ _ _ _ _ ho => rcases ho with ho | ⟨ho, _⟩ <;> rw [ho] at hout <;> cases hout
+
+/-! ### the table operations do what their names say (extensional view) -/
+
+def ribGet (rib : Rib) (n : Name) : List Route :=
+  match rib.find? (fun e => e.1 == n) with | some e => e.2 | none => []
+
+def fibGet (fib : Fib) (n : Name) : List (Nat × Nat) :=
+  match fib.find? (fun e => e.1 == n) with | some e => e.2 | none => []
+
+theorem routesAdd_mem (rs : List Route) (r : Route) : r ∈ routesAdd rs r := by
+  induction rs with
+  | nil => simp [routesAdd]
+  | cons x t ih => simp only [routesAdd]; split <;> simp [ih]
+
+/-- routes with another (face, origin) key are untouched by an addition -/
+theorem routesAdd_other (rs : List Route) (r x : Route) (hk : ¬(x.face = r.face ∧ x.origin = r.origin)) :
+    x ∈ routesAdd rs r ↔ x ∈ rs := by
+  induction rs with
+  | nil =>
+    simp only [routesAdd, List.mem_singleton, List.not_mem_nil, iff_false]
+    intro h; subst h; exact hk ⟨rfl, rfl⟩
+  | cons y t ih =>
+    simp only [routesAdd]
+    split
+    · rename_i hy
+      simp at hy
+      simp only [List.mem_cons]
+      constructor
+      · rintro (h | h)
+        · subst h; exact absurd ⟨rfl, rfl⟩ hk
+        · exact Or.inr h
+      · rintro (h | h)
+        · subst h; exact absurd ⟨hy.1, hy.2⟩ hk
+        · exact Or.inr h
+    · simp only [List.mem_cons, ih]
+
+theorem ribAdd_get_same (rib : Rib) (n : Name) (r : Route) : ribGet (ribAdd rib n r) n = routesAdd (ribGet rib n) r := by
+  induction rib with
+  | nil => simp [ribAdd, ribGet, routesAdd]
+  | cons e t ih =>
+    obtain ⟨m, rs⟩ := e
+    by_cases hm : m = n
+    · subst hm; simp [ribAdd, ribGet]
+    · have : (m == n) = false := by simpa using hm
+      simp only [ribAdd, this, Bool.false_eq_true, ↓reduceIte, ribGet, List.find?] at ih ⊢
+      exact ih
+
+theorem ribAdd_get_other (rib : Rib) (n m : Name) (r : Route) (h : m ≠ n) : ribGet (ribAdd rib n r) m = ribGet rib m := by
+  induction rib with
+  | nil =>
+    have : (n == m) = false := by simpa using Ne.symm h
+    simp [ribAdd, ribGet, this]
+  | cons e t ih =>
+    obtain ⟨k, rs⟩ := e
+    by_cases hk : k = n
+    · subst hk
+      have : (k == m) = false := by simpa using Ne.symm h
+      simp [ribAdd, ribGet, this]
+    · have hkn : (k == n) = false := by simpa using hk
+      simp only [ribAdd, hkn, Bool.false_eq_true, ↓reduceIte]
+      by_cases hkm : k = m
+      · subst hkm; simp [ribGet]
+      · have : (k == m) = false := by simpa using hkm
+        simp only [ribGet, List.find?, this] at ih ⊢
+        exact ih
+
+/-- a removal only removes: what is listed afterwards was listed before -/
+theorem routesRemove_sub (rs : List Route) (f o : Nat) (x : Route) (h : x ∈ routesRemove rs f o) : x ∈ rs := by
+  induction rs with
+  | nil => simp [routesRemove] at h
+  | cons y t ih =>
+    simp only [routesRemove] at h
+    split at h
+    · exact List.mem_cons_of_mem _ h
+    · rcases List.mem_cons.1 h with h | h
+      · simp [h]
+      · exact List.mem_cons_of_mem _ (ih h)
+
+/-- when (face, origin) identifies a route (which `routesAdd` maintains), the removed key is gone -/
+theorem routesRemove_gone (rs : List Route) (f o : Nat)
+    (huniq : rs.Pairwise (fun a b => ¬(a.face = b.face ∧ a.origin = b.origin))) :
+    ∀ x ∈ routesRemove rs f o, ¬(x.face = f ∧ x.origin = o) := by
+  induction rs with
+  | nil => simp [routesRemove]
+  | cons y t ih =>
+    intro x hx
+    simp only [routesRemove] at hx
+    rw [List.pairwise_cons] at huniq
+    split at hx
+    · rename_i hy
+      simp at hy
+      intro hxk
+      exact huniq.1 x hx ⟨by omega, by omega⟩
+    · rename_i hy
+      rcases List.mem_cons.1 hx with h | h
+      · subst h; simpa using hy
+      · exact ih huniq.2 x h
+
+theorem hopsInsert_mem (hs : List (Nat × Nat)) (f c : Nat) : (f, c) ∈ hopsInsert hs f c := by
+  induction hs with
+  | nil => simp [hopsInsert]
+  | cons x t ih =>
+    obtain ⟨g, d⟩ := x
+    simp only [hopsInsert]; split
+    · rename_i h; simp at h; simp [h]
+    · simp [ih]
+
+theorem fibInsert_get_same (fib : Fib) (n : Name) (f c : Nat) :
+    fibGet (fibInsert fib n f c) n = hopsInsert (fibGet fib n) f c := by
+  induction fib with
+  | nil => simp [fibInsert, fibGet, hopsInsert]
+  | cons e t ih =>
+    obtain ⟨m, hs⟩ := e
+    by_cases hm : m = n
+    · subst hm; simp [fibInsert, fibGet]
+    · have : (m == n) = false := by simpa using hm
+      simp only [fibInsert, this, Bool.false_eq_true, ↓reduceIte, fibGet, List.find?] at ih ⊢
+      exact ih
+
+theorem scSet_mem (sc : Sc) (n s : Name) : (n, s) ∈ scSet sc n s := by
+  induction sc with
+  | nil => simp [scSet]
+  | cons e t ih =>
+    obtain ⟨m, x⟩ := e
+    simp only [scSet]; split
+    · rename_i h; simp at h; simp [h]
+    · simp [ih]
+
+theorem scUnset_gone (sc : Sc) (n : Name) : ∀ e ∈ scUnset sc n, e.1 ≠ n := by
+  intro e he
+  simp only [scUnset, List.mem_filter] at he
+  simpa using he.2
+
+/-! ### non-vacuity: concrete reachable situations meeting the hypotheses above -/
+
+def exRegister : Name := lhPrefix ++ [gc "rib", gc "register", ⟨8, []⟩]
+def exArgs : Args := { name := some [gc "a"], cost := some 5 }
+
+-- accepted_effect_exact / accepted_reports_200: a local app registers /a with cost 5
+example : verbOf exRegister = some .ribRegister ∧ authorised false initFaces 2 exRegister = true ∧
+    validity (tablesOf (init false)) 2 .ribRegister (hasParams exRegister) (.args exArgs) = .valid := by decide
+example : (sysStep (init false) ⟨[], []⟩ true 2 exRegister (.args exArgs)).2 =
+    .ctrl 200 { name := some [gc "a"], faceId := some 2, origin := some 0, cost := some 5, flags := some 1 } := by rfl
+example : (sysStep (init false) ⟨[], []⟩ true 2 exRegister (.args exArgs)).1.rib = [([gc "a"], [⟨2, 0, 5, 1, none⟩])] := by rfl
+
+-- bad_params_4xx_no_change: a face that does not exist; an MTU of 10; a capacity of 2^63
+example : validity (tablesOf (init false)) 2 .ribRegister true (.args { exArgs with faceId := some 50 }) = .invalid := by decide
+example : validity (tablesOf (init false)) 2 .faceUpdate true (.args { faceId := some 3, mtu := some 10 }) = .invalid := by decide
+example : validity (tablesOf (init false)) 2 .csConfig true (.args { capacity := some (2 ^ 63) }) = .invalid := by decide
+example : (sysStep (init false) ⟨[], []⟩ true 2 (lhPrefix ++ [gc "faces", gc "update", ⟨8, []⟩])
+    (.args { faceId := some 3, mtu := some 10 })).2 = .ctrl 409 noArgs := by rfl
+
+-- state_changes_only_if_authorised: the same registration from the non-local face 4 is dropped,
+-- and under /localhop/nfd it is dropped when localhop management is off (even if routed)
+example : (sysStep (init false) ⟨[], []⟩ true 4 exRegister (.args exArgs)).1.rib = [] := by rfl
+example : (sysStep (init false) ⟨[], []⟩ true 5 (lpPrefix ++ [gc "rib", gc "register", ⟨8, []⟩]) (.args exArgs)).1.rib = [] := by rfl
+example : (sysStep (init true) ⟨[], []⟩ true 5 (lpPrefix ++ [gc "rib", gc "register", ⟨8, []⟩]) (.args exArgs)).1.rib =
+    [([gc "a"], [⟨5, 0, 5, 1, none⟩])] := by rfl
+
+-- dataset_eq_tables: rib/list after the registration lists it
+example : (sysStep (sysStep (init false) ⟨[], []⟩ true 2 exRegister (.args exArgs)).1 ⟨[], []⟩ true 2
+    (lhPrefix ++ [gc "rib", gc "list"]) .undecodable).2 =
+    .dataset lhPrefix "rib/list" 0 (.rib [([gc "a"], [⟨2, 0, 5, 1, none⟩])]) := by rfl
+
+-- mtu_accepted_implies_sendable: MTU 64 on face 3 is accepted
+example : (faceUpdate (init false) 2 exRegister (.args { faceId := some 3, mtu := some 64 })).2 =
+    .ctrl 200 { faceId := some 3, pers := some 0, mtu := some 64, flags := some 0, bcmi := some 100000000, dct := some 65536 } := by rfl
+
+-- strategy_unset_root_rejected
+example : hasParams exRegister = true := by decide
 
 end Ndn.C17
